@@ -204,6 +204,24 @@ CHECKS.update({
                      "invocation and never placed.", ref="5/C15", note=E1_NOTE),
 })
 
+CHECKS.update({
+    "C20": dict(engine="E5", technique="exhaustive enumeration of all solutions of the "
+                "integer model compiled by the real C++ back-end (driver built from "
+                "/repo, sequential TBB shim, no solver) for every tree of a bounded "
+                "grammar; each solution read back by the real populateResults()",
+                text="Every solution: capacity per partition per time unit, each "
+                     "satisfied leaf exactly its demand for its duration, nothing held "
+                     "by unsatisfied ones, Min all / Max at most one / LessThan order, "
+                     "reported utility = objective; best objective = brute-force "
+                     "optimum of the expression with and without passes; coarser "
+                     "discretisation only loses utility.", ref="5/C20",
+                note="Trusted base: harness, g++; the ~150-line sequential TBB shim "
+                     "(nothing is claimed about data races of the parallel leaf "
+                     "parsing); the Python enumerator is cross-checked against Gurobi "
+                     "on a sample of the dumped models in every run. Bounded: <=3 "
+                     "leaves (incl. a shared one), 2 partitions, horizon 12."),
+})
+
 NOT_YET = {}
 
 
@@ -263,6 +281,9 @@ def main():
 
 
 ENGINES = [
+    {"name": "E5", "path": "vf/strl.py", "serves_properties": ["C20"],
+     "kind_free_text": "C++ STRL driver (cxx/) + exhaustive solution enumeration of the "
+                       "dumped model + reference semantics"},
     {"name": "E4", "path": "vf/e4.py", "serves_properties": ["C10", "C11", "C12", "C14"],
      "kind_free_text": "decision-space enumeration of the optimisation model captured "
                        "inside the real schedule() call"},
